@@ -11,29 +11,39 @@ git -C /repo worktree add -q --detach "$WT" HEAD || exit 2
 trap 'git -C /repo worktree remove --force "$WT" 2>/dev/null; rm -rf "$WT"' EXIT
 cd "$WT" || exit 2
 DEMO=$(ls "$SD"/*_test.go 2>/dev/null | head -1)
-if [ -z "$DEMO" ]; then echo "no demo test in $SD"; exit 2; fi
-cp "$DEMO" "$PKG/zz_seed_demo_test.go"
-if go test -vet=off -count=1 -run "$RX" "./$PKG" >/tmp/confirm-$$.c 2>&1; then C=pass; else C=FAIL; fi
+MAIN=""
+if [ -z "$DEMO" ] && [ -f "$SD/demo/main.go" ]; then MAIN="$SD/demo/main.go"; DEMO=$MAIN; fi
+if [ -z "$DEMO" ]; then echo "no demo in $SD"; exit 2; fi
+rundemo() {
+  if [ -n "$MAIN" ]; then
+    mkdir -p cmd/zzseeddemo && cp "$MAIN" cmd/zzseeddemo/main.go
+    go run ./cmd/zzseeddemo >"$1" 2>&1; rc=$?
+    rm -rf cmd/zzseeddemo
+    return $rc
+  fi
+  cp "$DEMO" "$PKG/zz_seed_demo_test.go"
+  go test -vet=off -count=1 -run "$RX" "./$PKG" >"$1" 2>&1; rc=$?
+  rm "$PKG/zz_seed_demo_test.go"
+  return $rc
+}
+if rundemo /tmp/confirm-$$.c; then C=pass; else C=FAIL; fi
 grep -q "no tests to run" /tmp/confirm-$$.c && C=NOTESTS
-rm "$PKG/zz_seed_demo_test.go"
 git apply "$SD/patch.diff" || { echo "patch does not apply"; exit 2; }
-cp "$DEMO" "$PKG/zz_seed_demo_test.go"
-if go test -vet=off -count=1 -run "$RX" "./$PKG" >/tmp/confirm-$$.b 2>&1; then B=PASS; else B=fail; fi
-rm "$PKG/zz_seed_demo_test.go"
+if rundemo /tmp/confirm-$$.b; then B=PASS; else B=fail; fi
 if go test -vet=off -count=1 ./... >/tmp/confirm-$$.a 2>&1; then A=pass; else A=FAIL; fi
 echo "$NAME: (a) suite with change: $A   (b) demo with change: $B   (c) demo without change: $C"
 if [ "$A" = pass ] && [ "$B" = fail ] && [ "$C" = pass ]; then
   D=/verif/seeded/$NAME
   mkdir -p "$D"
   cp "$SD/patch.diff" "$D/patch.diff"
-  cp "$DEMO" "$D/demo_test.go"
+  if [ -n "$MAIN" ]; then mkdir -p "$D/demo" && cp "$MAIN" "$D/demo/main.go"; else cp "$DEMO" "$D/demo_test.go"; fi
   [ -f "$SD/notes.md" ] && cp "$SD/notes.md" "$D/notes.md"
   python3 - "$D" "$PROP" "$PKG" "$RX" "$NEEDS" <<'E'
 import json, sys, subprocess
 d, prop, pkg, rx, needs = sys.argv[1:6]
 head = subprocess.check_output(["git", "-C", "/repo", "rev-parse", "--short", "HEAD"]).decode().strip()
 meta = {"property": prop, "needs_to_manifest": needs,
-        "demo": {"copy_to": pkg + "/", "command": "go test -vet=off -count=1 -run '%s' ./%s" % (rx, pkg)},
+        "demo": ({"copy_to": "cmd/zzseeddemo/main.go", "command": "go run ./cmd/zzseeddemo"} if pkg == "cmd" else {"copy_to": pkg + "/", "command": "go test -vet=off -count=1 -run '%s' ./%s" % (rx, pkg)}),
         "confirmed_on_repo_head": head,
         "confirmed": {"suite_passes_with_change": True, "demo_fails_with_change": True, "demo_passes_without_change": True},
         "ran": ["tools/confirmseed.sh (scratch worktree of /repo HEAD, removed afterwards)"],
